@@ -3,6 +3,7 @@ From Coq Require Import ZArith QArith Qround List Bool Lia.
 From Pandora Require Import Lib.Ext Lib.Arr Lib.Blocks Spec.Local Proofs.LocalP Model.Local.
 From Pandora Require Model.MatchingCost Model.Criteria Model.Wta Model.Refine Model.Filters Model.CrossCheck.
 From Pandora Require Spec.Cost Proofs.MatchingCostP Proofs.LocalCostP Proofs.CrossCheckP.
+From Pandora Require Model.Cbca Spec.Cbca Proofs.CbcaP Proofs.LocalCbcaP.
 Import ListNotations.
 Open Scope Z_scope.
 
@@ -500,6 +501,175 @@ Proof.
   change (lay_right G F') with (lay_left (swapc G) (swapf F')).
   rewrite (left_flag_local E (swapc G) Hwf' (swapf F) (swapf F') r c r' c' _ _ HFs HFs' Hags eq_refl).
   reflexivity.
+Qed.
+
+(* ------------------------------------------------------------------ cbca aggregation: through
+   LocalCbcaP.cbca_model_local (C11's model = spec, then the locality of the spec) *)
+
+Lemma nth_range : forall n lo i d, (i < n)%nat -> nth i (MatchingCost.range lo n) d = lo + Z.of_nat i.
+Proof.
+  induction n; intros lo i d Hi; [lia|]. cbn [MatchingCost.range]. destruct i; cbn [nth]; [lia|].
+  rewrite IHn by lia. lia.
+Qed.
+Lemma range_length : forall m lo, length (MatchingCost.range lo m) = m.
+Proof. induction m; intros; cbn [MatchingCost.range length]; auto. Qed.
+
+(* sample k of the disparity axis: d = dmin + k / s; its floor and the index of its shifted right image *)
+Lemma sample_disp : forall s dmin n k, 0 <= k < n ->
+  nth (Z.to_nat k) (disps s dmin n) 0%Q = Qred (inject_Z dmin + (k # Z.to_pos s))%Q.
+Proof.
+  intros s dmin n k Hk. unfold disps.
+  set (f := fun k0 : Z => Qred (inject_Z dmin + (k0 # Z.to_pos s))).
+  rewrite (nth_indep _ 0%Q (f 0)).
+  2:{ rewrite map_length. unfold MatchingCost.zrange. rewrite range_length. lia. }
+  rewrite map_nth. unfold MatchingCost.zrange. rewrite nth_range by lia. unfold f. f_equal. f_equal. f_equal. lia.
+Qed.
+Lemma disps_length : forall s dmin n, 0 <= n -> Z.of_nat (length (disps s dmin n)) = n.
+Proof. intros. unfold disps, MatchingCost.zrange. rewrite map_length, range_length. lia. Qed.
+
+Lemma sample_floor : forall s dmin k, 0 < s ->
+  Qfloor (Qred (inject_Z dmin + (k # Z.to_pos s))) = (dmin * s + k) / s.
+Proof.
+  intros s dmin k Hs. rewrite (Qfloor_comp _ _ (Qred_correct _)).
+  unfold Qfloor, Qplus, inject_Z. cbn [Qnum Qden]. rewrite Pos.mul_1_l, Z2Pos.id by lia. f_equal. lia.
+Qed.
+Lemma sample_image : forall s dmin k, 0 < s ->
+  Spec.Cbca.plane_image s (Qred (inject_Z dmin + (k # Z.to_pos s))) = (dmin * s + k) mod s.
+Proof.
+  intros s dmin k Hs. unfold Spec.Cbca.plane_image. rewrite sample_floor by assumption.
+  set (D := dmin * s + k).
+  rewrite <- (Qfloor_Z (D mod s)). apply Qfloor_comp.
+  rewrite (Qred_correct _).
+  unfold Qeq, Qminus, Qplus, Qopp, Qmult, inject_Z. cbn [Qnum Qden].
+  rewrite !Pos.mul_1_l, !Pos.mul_1_r, Z2Pos.id by lia.
+  pose proof (Z.div_mod D s ltac:(lia)). unfold D in *. nia.
+Qed.
+
+Lemma rad_cbca_wf : forall G dist, cfg_wf G ->
+  rad_wf (rad_cbca_S dist) /\ rad_wf (rad_cbca_I G dist) /\ rad_wf (rad_cbca_M G dist).
+Proof.
+  intros G dist Hwf. assert (0 <= dspan G) by (unfold dspan, dpos, dneg; lia).
+  unfold rad_wf, rad_cbca_S, rad_cbca_I, rad_cbca_M, cbca_arm. cbn [rho lam mu]. lia.
+Qed.
+
+Section CbcaLeft.
+  Variables (dist : Z) (inten : Q) (G : cfg).
+  Hypothesis Hwf : cfg_wf G.
+  Hypothesis Hdist : 1 <= dist.
+  Variables (F F' : frame pix) (r c r' c' : Z).
+  Hypothesis HF : cone_in F (rad_cbca_M G dist) r c.
+  Hypothesis HF' : cone_in F' (rad_cbca_M G dist) r' c'.
+  Hypothesis HagS : agree_on F F' (rad_cbca_S dist) r c r' c'.
+  Hypothesis HagI : agree_via img_of F F' (rad_cbca_I G dist) r c r' c'.
+  Let A := LocalCbcaP.arm_max dist.
+  Let h := MatchingCost.offset (g_w G).
+
+  Lemma cbca_left_local : forall k, 0 <= k < n_disp G ->
+    cbca_at (cbca_left dist inten G F) k r c = cbca_at (cbca_left dist inten G F') k r' c'.
+  Proof.
+    intros k Hk. pose proof (h0 G Hwf) as Hh. fold h in Hh. destruct Hwf as (Hw & Ho & Hs & Hdd).
+    assert (Hsp : - dspan G <= g_dmin G /\ g_dmax G <= dspan G /\ 0 <= dspan G) by (unfold dspan, dpos, dneg; lia).
+    assert (HA : 1 <= A) by (unfold A, LocalCbcaP.arm_max; lia).
+    unfold cone_in, rad_cbca_M in HF, HF'. cbn [rho lam mu] in HF, HF'.
+    change (cbca_arm dist) with A in HF, HF'. fold h in HF, HF'.
+    assert (Hn : 0 <= n_disp G) by (unfold n_disp, MatchingCost.nb_disp; nia).
+    pose proof (sample_bounds (g_s G) (g_dmin G) (g_dmax G) k Hs Hk) as SB. cbv zeta in SB.
+    unfold MatchingCost.disp_scaled, Cost.dfloor, Cost.dceil in SB.
+    rewrite MatchingCostP.ceil_floor in SB by assumption.
+    set (D := g_dmin G * g_s G + k) in *.
+    assert (Ee : D / g_s G + (if D mod g_s G =? 0 then 0 else 1) <= g_dmax G) by (destruct (D mod g_s G =? 0); lia).
+    assert (Ee0 : D / g_s G <= g_dmax G) by (destruct (D mod g_s G =? 0); lia).
+    destruct SB as [SB1 _].
+    change (cbca_at (cbca_left dist inten G F) k r c) with (CbcaP.out_at (cbca_left dist inten G F) k r c).
+    change (cbca_at (cbca_left dist inten G F') k r' c') with (CbcaP.out_at (cbca_left dist inten G F') k r' c').
+    assert (Ed : CbcaP.nth_disp (cbca_left dist inten G F) k = Qred (inject_Z (g_dmin G) + (k # Z.to_pos (g_s G)))).
+    { unfold CbcaP.nth_disp, cbca_left. cbn [Cbca.i_disps]. apply (sample_disp _ _ (n_disp G)). exact Hk. }
+    apply (LocalCbcaP.cbca_model_local (cbca_left dist inten G F) (cbca_left dist inten G F') k k r c r' c').
+    - unfold cbca_left. cbn. repeat split; reflexivity.
+    - exact Hdist.
+    - unfold cbca_left. cbn [Cbca.i_subpix]. lia.
+    - unfold cbca_left. cbn [Cbca.i_off]. exact Hh.
+    - unfold CbcaP.n_disp, cbca_left. cbn [Cbca.i_disps]. rewrite disps_length by assumption. exact Hk.
+    - unfold CbcaP.n_disp, cbca_left. cbn [Cbca.i_disps]. rewrite disps_length by assumption. exact Hk.
+    - reflexivity.
+    - rewrite Ed. unfold Spec.Cbca.plane_shift. rewrite sample_floor, sample_image by assumption. fold D.
+      unfold cbca_left. cbn [Cbca.i_dist Cbca.i_off Cbca.i_subpix Cbca.i_nr Cbca.i_nc]. fold A h.
+      destruct (D mod g_s G =? 0); lia.
+    - rewrite Ed. unfold Spec.Cbca.plane_shift. rewrite sample_floor, sample_image by assumption. fold D.
+      unfold cbca_left. cbn [Cbca.i_dist Cbca.i_off Cbca.i_subpix Cbca.i_nr Cbca.i_nc]. fold A h.
+      destruct (D mod g_s G =? 0); lia.
+    - (* left image and mask *)
+      intros a b Ha Hb. cbn [cbca_left Cbca.i_dist] in Ha, Hb. fold A in Ha, Hb.
+      assert (Hc : in_cone (rad_cbca_I G dist) a b).
+      { unfold in_cone, rad_cbca_I. cbn [rho lam mu]. change (cbca_arm dist) with A. lia. }
+      destruct (img_of_fields _ _ (HagI a b Hc)) as (EL & ER & EmL & EmR).
+      unfold cbca_left. cbn [Cbca.i_imL Cbca.i_mskL]. unfold qimg, fld. rewrite EL. split; [reflexivity|].
+      destruct (g_hasL G); cbn [omask LocalCbcaP.omask_agree]; [exact EmL|exact I].
+    - (* the shifted right image *)
+      intros a b Ha Hb. cbn [cbca_left Cbca.i_dist] in Ha, Hb. fold A in Ha, Hb.
+      rewrite Ed. unfold Spec.Cbca.plane_shift. rewrite sample_floor, sample_image by assumption. fold D.
+      unfold cbca_left. cbn [Cbca.i_imR Cbca.i_subpix]. unfold shifted, MatchingCost.shift_right, fld.
+      assert (Hc : in_cone (rad_cbca_I G dist) a (D / g_s G + b)).
+      { unfold in_cone, rad_cbca_I. cbn [rho lam mu]. change (cbca_arm dist) with A. lia. }
+      destruct (img_of_fields _ _ (HagI a (D / g_s G + b) Hc)) as (_ & ER & _ & _).
+      replace (c + (D / g_s G + b)) with (c + D / g_s G + b) in ER by lia.
+      replace (c' + (D / g_s G + b)) with (c' + D / g_s G + b) in ER by lia.
+      destruct (D mod g_s G =? 0) eqn:Em; [rewrite ER; reflexivity|].
+      assert (Hc1 : in_cone (rad_cbca_I G dist) a (D / g_s G + b + 1)).
+      { unfold in_cone, rad_cbca_I. cbn [rho lam mu]. change (cbca_arm dist) with A. lia. }
+      destruct (img_of_fields _ _ (HagI a (D / g_s G + b + 1) Hc1)) as (_ & ER1 & _ & _).
+      replace (c + (D / g_s G + b + 1)) with (c + D / g_s G + b + 1) in ER1 by lia.
+      replace (c' + (D / g_s G + b + 1)) with (c' + D / g_s G + b + 1) in ER1 by lia.
+      rewrite ER, ER1. reflexivity.
+    - (* the right mask *)
+      intros a b Ha Hb. cbn [cbca_left Cbca.i_dist Cbca.i_subpix] in Ha, Hb. fold A in Ha, Hb.
+      rewrite Ed in *. unfold Spec.Cbca.plane_shift in *. rewrite sample_floor in * by assumption.
+      rewrite sample_image in Hb by assumption. fold D in Hb |- *.
+      assert (Hc : in_cone (rad_cbca_I G dist) a (D / g_s G + b)).
+      { unfold in_cone, rad_cbca_I. cbn [rho lam mu]. change (cbca_arm dist) with A.
+        destruct (D mod g_s G =? 0); lia. }
+      destruct (img_of_fields _ _ (HagI a (D / g_s G + b) Hc)) as (_ & _ & _ & EmR).
+      replace (c + (D / g_s G + b)) with (c + D / g_s G + b) in EmR by lia.
+      replace (c' + (D / g_s G + b)) with (c' + D / g_s G + b) in EmR by lia.
+      unfold cbca_left. cbn [Cbca.i_mskR]. unfold fld.
+      destruct (g_hasR G); cbn [omask LocalCbcaP.omask_agree]; [exact EmR|exact I].
+    - (* the input costs *)
+      intros a b Ha Hb. cbn [cbca_left Cbca.i_dist] in Ha, Hb. fold A in Ha, Hb.
+      unfold cbca_left. cbn [Cbca.i_cv]. unfold cv_at. rewrite (HagS a b); [reflexivity|].
+      unfold in_cone, rad_cbca_S. cbn [rho lam mu]. change (cbca_arm dist) with A. lia.
+  Qed.
+End CbcaLeft.
+
+Lemma cbca_right_swap : forall dist inten G F,
+  cbca_right dist inten G F = cbca_left dist inten (swapc G) (swapf F).
+Proof. intros. unfold cbca_right, cbca_left. rewrite n_disp_swap. reflexivity. Qed.
+
+Lemma rad_cbca_swap : forall G dist,
+  rad_cbca_I (swapc G) dist = rad_cbca_I G dist /\ rad_cbca_M (swapc G) dist = rad_cbca_M G dist.
+Proof. intros. unfold rad_cbca_I, rad_cbca_M. rewrite dspan_swap. split; reflexivity. Qed.
+
+(* cbca, left and right cost volumes: the costs of the square of the longest arm, the images one pixel further
+   (3x3 median) and, along the columns, the disparity span further; every cbca_distance >= 1, every cbca_intensity *)
+Theorem cbca_step_local : forall dist inten G, cfg_wf G -> 1 <= dist ->
+  local2 img_of no_side (cbca_step dist inten G) (rad_cbca_S dist) (rad_cbca_I G dist) (rad_cbca_M G dist).
+Proof.
+  intros dist inten G Hwf Hdist F F' r c r' c' HF HF' HagS HagI _.
+  destruct (rad_cbca_wf G dist Hwf) as (W1 & W2 & W3).
+  pose proof (agree_centre _ F F' _ r c r' c' W1 HagS) as E0.
+  assert (Hwf' : cfg_wf (swapc G)).
+  { destruct Hwf as (A1 & A2 & A3 & A4). unfold cfg_wf, swapc. cbn [g_w g_s g_dmin g_dmax]. repeat split; try assumption. lia. }
+  destruct (rad_cbca_swap G dist) as (S1 & S2).
+  unfold cbca_step. rewrite E0. f_equal.
+  - apply map_ext_in. intros k Hk. apply MatchingCostP.zrange_In in Hk.
+    apply (cbca_left_local dist inten G Hwf Hdist F F' r c r' c' HF HF' HagS HagI). lia.
+  - apply map_ext_in. intros k Hk. apply MatchingCostP.zrange_In in Hk.
+    rewrite !cbca_right_swap.
+    apply (cbca_left_local dist inten (swapc G) Hwf' Hdist (swapf F) (swapf F') r c r' c').
+    + rewrite S2. exact HF.
+    + rewrite S2. exact HF'.
+    + apply agree_swap. exact HagS.
+    + rewrite S1. apply agree_via_swap. exact HagI.
+    + rewrite n_disp_swap. lia.
 Qed.
 
 (* ------------------------------------------------------------------ cross-checking: one row, the
